@@ -64,3 +64,17 @@ From KV Require Import StateGen StateBase StateImportProofs StateTokensProofs St
 Theorem C01_state_as_modelled : state_import = modelled_state_import /\ state_tokens = modelled_state_tokens /\ state_export = modelled_state_export.
 Proof. exact (conj state_import_as_modelled (conj state_tokens_as_modelled state_export_as_modelled)). Qed.
 Print Assumptions C01_state_as_modelled.
+
+(* the same for RESTS: for every well-formed rest (any duration incl. rational / dotted / grace marks, duplicate-free
+   stand-alone rest signifiers) the recogniser reads the canonical text back as exactly that rest, and the normal form is
+   a fixed point of export - import - export *)
+From KV Require Import RestProofs RestFixedProofs.
+Theorem C01_reimport_of_canonical_rest : forall r, rest_ok r -> kern_recognise (str (print_rest r)) = KTok (rest_token r).
+Proof. exact recognise_print_rest. Qed.
+Print Assumptions C01_reimport_of_canonical_rest.
+Theorem C01_rest_fixed_point : forall r, rest_ok r -> rest_canonical_order r ->
+  exists text, kern_tokenize all_cats (rest_token r) = Ok text /\
+               kern_recognise text = KTok (rest_token r) /\
+               (forall t', kern_recognise text = KTok t' -> kern_tokenize all_cats t' = Ok text).
+Proof. exact rest_export_fixed_point. Qed.
+Print Assumptions C01_rest_fixed_point.
